@@ -15,6 +15,7 @@ var defaultAllow = []string{
 	"go.opentelemetry.io/otel",
 	"github.com/prometheus/client_golang",
 	"github.com/attestantio/dirk/util/loggers",
+	"github.com/attestantio/dirk/services/metrics",
 }
 
 func (e *Exec) allowed(pkgPath string) bool {
@@ -216,6 +217,11 @@ func (e *Exec) applyContract(fr *Frame, ins ssa.Instruction, ctr *Contract, name
 		e.P.Trusted["extern contract: "+ctr.Key] = true
 	}
 	env := &Env{e: e, vars: map[string]Val{}, st: st, old: st, fr: fr}
+	if ctr.Pkg != "" {
+		if pk := e.P.ByPath[ctr.Pkg]; pk != nil {
+			env.home = pk.Types
+		}
+	}
 	for i, n := range names {
 		if i < len(args) {
 			env.vars[n] = args[i]
@@ -304,7 +310,7 @@ func (e *Exec) applyContract(fr *Frame, ins ssa.Instruction, ctr *Contract, name
 		res = e.freshTyped(fr.prefix+valueName(ins)+"$res", resT, post)
 	}
 	if !isGo {
-		env2 := &Env{e: e, vars: env.vars, st: post, old: pre, fr: fr, result: &res}
+		env2 := &Env{e: e, vars: env.vars, st: post, old: pre, fr: fr, result: &res, home: env.home}
 		for _, c := range ctr.Ensures {
 			e.assume(g, e.evalBool(c, env2))
 		}
